@@ -401,8 +401,10 @@ class SimpleHeatPumpCycle:
 
         def _build_streams(profile: np.ndarray, is_hot: bool): 
 
-            if is_hot:
-                self._m_dot = self._Q_cond / abs(profile[0,0] - profile[-1,0])
+            # Mass flow per J/kg of profile enthalpy, from the condenser duty (Q in kW, H in J/kg).
+            # Derived locally: the stream sets must not depend on the order in which they are requested.
+            H = self.Hs
+            m_dot = self._Q_cond / abs(H[1] - H[2])
             sc = StreamCollection()
             for i in range(len(profile) - 1):
                 h1, T1 = profile[i]
@@ -422,7 +424,7 @@ class SimpleHeatPumpCycle:
                     name=name,
                     t_supply=T1,
                     t_target=t_target,
-                    heat_flow=self._m_dot*abs(h1 - h2),  # or m_dot * (h1 - h2), depending on your model
+                    heat_flow=m_dot*abs(h1 - h2),  # or m_dot * (h1 - h2), depending on your model
                     is_process_stream=False,
                     dt_cont=self._dtcont,
                 )
